@@ -300,6 +300,12 @@ func c01(r *Run) {
 	for _, name := range []string{"Flush", "bookAck"} {
 		fn := bufMethod(w, name)
 		r.mustPass("C01.R2:length-added-on-publish:"+name, "a method that makes bytes readable adds them to the atomic length on every path", fn, nil, []Start{Entry(fn)}, func(i ssa.Instruction) bool { return isCall(i, recal) }, nil, nil, "recalLen on every path")
+		// the length is what a concurrent reader looks at (the poller fills the input buffer while the user reads it): the
+		// flushed boundary is moved before the new length is published, or the reader consumes up to the new length, walks
+		// past a boundary that still lags behind and Release steps over the end of the chain
+		for _, pub := range findIns(fn, func(i ssa.Instruction) bool { return isCall(i, recal) }) {
+			r.precedes("C01.R2:boundary-before-length:"+name, "the flushed boundary (b.flush) is moved before the new length is published by recalLen: a reader that sees the new length must find the boundary already there", fn, pub, func(i ssa.Instruction) bool { return isStoreToField(i, "UnsafeLinkBuffer", "flush") }, nil, "b.flush = ... dominates recalLen(n)")
+		}
 	}
 	{
 		fn := bufMethod(w, "WriteBuffer")
